@@ -355,6 +355,10 @@ func runC17(c *core.Ctx) {
 		runCanary(c, canary)
 		return
 	}
+	if c.Index%7 == 6 {
+		runC17Deep(c)
+		return
+	}
 	kind := dynKinds[c.Index%len(dynKinds)]
 	// documented constructor preconditions: exercised, allowed to panic
 	if c.Index%50 == 0 {
@@ -403,6 +407,45 @@ func runC17(c *core.Ctx) {
 	}
 	c.State(core.Mix(core.HashString(obj), core.HashString(d.Elem), uint64(steps)))
 	c.Nontrivial()
+}
+
+// runC17Deep runs the state-deep workloads written for other properties
+// (order families on the trees, list sawtooth, ring sweep, heap histories,
+// iterator walks) under C17's monitors only: panics, termination and - through
+// the OnCall hook - output written by any single call deep inside a history
+// (a stray log line in a rebalancing path, say).
+func runC17Deep(c *core.Ctx) {
+	o0, e0 := fdSizes()
+	c.OnCall = func() {
+		o, e := fdSizes()
+		if o != o0 || e != e0 {
+			wo, we := o-o0, e-e0
+			o0, e0 = o, e
+			c.Fail("output", "wrote-to-stdout-or-stderr", "the call wrote %d bytes to standard output and %d to standard error", wo, we)
+		}
+	}
+	defer func() {
+		c.OnCall()
+		c.OnCall = nil
+	}()
+	r := c.R
+	switch r.Intn(8) {
+	case 0, 1, 2:
+		kind := kvKinds[r.Intn(len(kvKinds))]
+		runKVCase(c, kind, IntDom(r.Range(4, 12)), intKey, func(m *KVMon[int, int]) {})
+	case 3:
+		runListSawtooth(c, IntDom(6))
+	case 4:
+		runListHistory(c, IntDom(8), 300, r.Range(50, 200))
+	case 5:
+		p := ringPlan[r.Intn(len(ringPlan))]
+		runRingSweep(c, p[0], p[1])
+	case 6:
+		runC06(c)
+	default:
+		runCursorRandom(c, iterTypes[r.Intn(len(iterTypes))])
+	}
+	c.Count("deep-cases", 1)
 }
 
 // runCanary makes the monitors' liveness observable: each canary commits the
